@@ -42,6 +42,8 @@ def conc_val(v, H):
         return ["a", 1]
     if v == "bad":
         return gamma.Bad()
+    if v == "badlist":
+        return ["b", 1, H.TagList("c", H.tags.i("d")), gamma.Bad()]
     raise ValueError(v)
 
 
@@ -179,7 +181,7 @@ def well_formed_random(rnd, tagnames, maxevents, maxdepth):
     used = set()
     exc = False
     n = 0
-    vals = ["str", "num", "zero", "empty", "none", "dots", "repr", "tag", "tfy", "list", "bad"]
+    vals = ["str", "num", "zero", "empty", "none", "dots", "repr", "tag", "tfy", "list", "bad", "badlist"]
     while n < maxevents or stack:
         if exc or n >= maxevents:
             if not stack:
@@ -213,7 +215,7 @@ def well_formed_random(rnd, tagnames, maxevents, maxdepth):
             v = rnd.choice(vals)
             events.append({"act": "Display", "t": "", "g": False, "v": v})
             n += 1
-            if v == "bad":
+            if v in ("bad", "badlist"):
                 exc = True
         elif r < 0.87 and stack:
             events.append({"act": "Raise", "t": "", "g": False, "v": ""})
